@@ -33,6 +33,15 @@ func (w *World) Observe(n *Node, op OpInfo) *Snap {
 	for h := range cur.Confirmed() {
 		n.Seen[h] = true
 	}
+	if prev != nil {
+		for h := range prev.Live {
+			if _, still := cur.Live[h]; !still {
+				if _, st := cur.Stored[h]; !st && len(n.Dropped) < 64 {
+					n.Dropped = append(n.Dropped, h)
+				}
+			}
+		}
+	}
 	n.Prev = cur
 	return cur
 }
